@@ -17,7 +17,11 @@ def run(res, tier):
     ev, bad, kn, s2 = _dp.run_direct(
         rng, n_dir, [('noninterference', lambda c, r, kp: direct.c02_noninterference(c, r, kp))],
         gen_kw=dict(max_len=3, max_depth=2))
+    n4, bad4 = direct.leaf_refit(rng)
+    bad = bad + bad4
+    ev += n4
     res.coverage.update(
+        refit_histories=n4,
         evaluations=len(batch.meta) + ev, distinct_nontrivial=distinct + ev,
         rule=('M2: transform output and declared (n_states_out_, n_inputs_out_) compared with the Coq model on random '
               'pipelines x layouts (integer-exact). Direct: real sub-estimators; input columns replaced by fresh random '
